@@ -60,6 +60,17 @@ SPEC = {
              "(`Authorization: Bearer <token without blanks>` or a `Cookie` list with blanks), 12% (http) the query string of the uri. Size of the line: 30% "
              "4096 +-64 bytes, 10% 4096-4098, 10% 8192 +-64, 15% 65536 +-64, the rest log-uniform in 4 KiB - 70 KiB. The case stores the recipe, not the text. "
              "Such a case is checked like any other (stated configuration, both readings, delivered ammo): the line must arrive byte for byte. "
+             "35% of the descriptions of TestEquivalence / TestLocals (and the fuzz targets) that have a non-empty user map (headers, metadata, "
+             "mapping, variables with string values, no key `<<`) write x.yaml with ANCHORS AND MERGE KEYS, the YAML counterpart of HCL locals + merge() "
+             "(docs/eng/scenario/locals.md; internal/scengen/yamlanchor.go, c16/anchors_test.go): 1-3 anchors, each from a donor map - 70% in a "
+             "`locals:` helper block at the top of the file (a drawn part of the donor's entries, each entry given ANOTHER value with 30%, 25% with a `<<` of "
+             "1-2 earlier anchors of the block), 30% inline on the donor map (`headers: &name`); every later map that has all keys of an anchor merges it "
+             "with 70% (`<<: *a`, two anchors `<<: [*a, *b]` in a drawn order - the earlier one wins a common key), a map equal to its only anchor is written "
+             "`headers: *a` with 40%; keys the merge lacks or holds with another value are set by the mapping itself AFTER the `<<` (the explicit key wins: "
+             "class yaml_merge_override, also after a long header / metadata value was written into the map), other keys are repeated with 25% before or after "
+             "the `<<`. The plan never changes the meaning: the anchored file is kept only when yaml.v2's own Unmarshal reads it exactly as the Marshal form "
+             "plus the `locals` key (else yaml_anchor_fallback); x.hcl is untouched. The oracle is that of every case; the `locals` block must be read as "
+             "written (merges resolved) and is then put aside (HCL locals do not show in the configuration either). "
              "TestConcurrentLoads: 3-6 different descriptions (30% with locals), each in both syntaxes in its own directory, are first "
              "read alone (reference, checked like a TestEquivalence case incl. delivered ammo) and then loaded 4 (thorough 12) times each by 12-24 "
              "goroutines released together in a process with GOMAXPROCS=4 (3-6 loaders per processor, so that loaders are descheduled "
@@ -118,12 +129,20 @@ SPEC = {
         # classes added after seeded defects C16/m10-m11
         "TestEquivalence/no_scenarios": 0.025, "TestEquivalence/no_scenarios_http": 0.014, "TestEquivalence/no_scenarios_grpc": 0.008,
         "TestEquivalence/no_scenarios_several_steps": 0.015,
-        "TestEquivalence/long_line": 0.05, "TestEquivalence/hcl_physical_line_4k_or_more": 0.04, "TestEquivalence/hcl_physical_line_64k_or_more": 0.008,
+        "TestEquivalence/long_line": 0.045, "TestEquivalence/hcl_physical_line_4k_or_more": 0.04, "TestEquivalence/hcl_physical_line_64k_or_more": 0.008,
         "TestEquivalence/yaml_physical_line_4k_or_more": 0.03, "TestEquivalence/long_line_around_4k": 0.015,
         "TestEquivalence/long_line_in_hcl_heredoc": 0.015, "TestEquivalence/long_line_in_hcl_quoted_string": 0.02,
         "TestEquivalence/long_line_in_yaml_literal": 0.015, "TestEquivalence/long_line_in_yaml_marshal_form": 0.008,
         "TestEquivalence/long_line_header": 0.006,
         "TestLocals/no_scenarios": 0.02, "TestLocals/long_line": 0.038, "TestLocals/hcl_physical_line_4k_or_more": 0.04,
+        # classes added after seeded defect C16/m12 (anchors and merge keys in x.yaml)
+        "TestEquivalence/yaml_anchors": 0.17, "TestEquivalence/yaml_anchor_locals_block": 0.17, "TestEquivalence/yaml_anchor_inline": 0.09,
+        "TestEquivalence/yaml_merge_key": 0.12, "TestEquivalence/yaml_merge_override": 0.06, "TestEquivalence/yaml_merge_adds_new_key": 0.05,
+        "TestEquivalence/yaml_merge_override_in_headers": 0.018, "TestEquivalence/yaml_merge_override_in_mapping": 0.03,
+        "TestEquivalence/yaml_merge_override_in_metadata": 0.006, "TestEquivalence/yaml_merge_list": 0.015,
+        "TestEquivalence/yaml_merge_list_with_common_key": 0.012, "TestEquivalence/yaml_alias_of_whole_map": 0.015,
+        "TestEquivalence/yaml_merge_key_after_explicit_keys": 0.02,
+        "TestLocals/yaml_anchors": 0.16, "TestLocals/yaml_merge_key": 0.12, "TestLocals/yaml_merge_override": 0.05, "TestLocals/yaml_merge_list": 0.012,
         "TestConcurrentLoads/conc_all_descriptions_differ": 0.6, "TestConcurrentLoads/conc_http_and_grpc": 0.4,
         "TestConcurrentLoads/conc_hcl_over_2k": 0.3, "TestConcurrentLoads/conc_loaders_5_per_processor_or_more": 0.2,
         "TestConcurrentLoads/conc_40_hcl_loads_or_more": 0.4, "TestConcurrentLoads/conc_12_provider_builds_or_more": 0.6,
@@ -163,7 +182,9 @@ SPEC = {
                  "single- and double-quoted by hand), the order of the keys of the mappings with fixed keys and the end of the file vary; "
                  "the order inside user maps (headers, mapping, ...), keys, the block structure and numbers are as yaml.v2 writes them (no flow "
                  "collections, no indented sequences, no comments), and HCL strings are quoted or `<<EOT` heredocs (no `<<-`). The "
-                 "native byte-mutation campaign of the design, YAML anchors / the YAML `locals` helper block and HCL comment / "
+                 "user maps are optionally written through anchors, aliases and merge keys with a `locals` helper block (values inside such a map as Marshal "
+                 "writes them; an overriding key always AFTER the `<<`: measured, not asserted - yaml.v2 lets a `<<` that stands after an explicit key win "
+                 "over it, unlike YAML 1.1). The native byte-mutation campaign of the design and HCL comment / "
                  "CRLF layouts are not implemented (measured, not asserted: in a file saved with CR LF line ends an HCL heredoc body keeps "
                  "\\r\\n while a YAML block scalar gives \\n). A description without scenarios is only required to mean the same in both syntaxes."),
     },
@@ -176,6 +197,7 @@ SPEC = {
         "complete ${...} sequences are not generated (placeholder language of the config layer, property C17)",
         "the documented semantics of the HCL functions are those of the pages docs/eng/scenario/functions.md links to",
         "hclwrite's quoted-string escaping and yaml.v2's Marshal are the trusted base of the two renderers (the key `<<`, which yaml.v2 writes unquoted, is quoted by the harness)",
+        "a YAML file with anchors, aliases and merge keys means what yaml.v2's Unmarshal reads from it (explicit key over merged key when written after the `<<`, earlier anchor of a merge list over later): it is only written when the whole file then decodes exactly as the Marshal form does, plus the `locals` helper block, which docs/eng/scenario/locals.md offers for common values and which is not part of the description",
         "a hand-written YAML scalar means what yaml.v2's Unmarshal (the library the YAML front-end, config.DecodeMap, reads files with) reads from it: it is only written when the whole file then decodes exactly as the Marshal form does",
     ],
 }
